@@ -47,16 +47,20 @@ def _default_named_schemas() -> Dict[str, NamedSchemas]:
     return {"writer": {}, "reader": {}}
 
 
-def match_types(writer_type, reader_type, named_schemas):
+def match_types(writer_type, reader_type, named_schemas, level=2):
+    """level 0: the same type (a named type: the same full name); level 1: named
+    types also by unqualified name or reader alias; level 2: promotions, too"""
     if isinstance(writer_type, list) or isinstance(reader_type, list):
         return True
     if isinstance(writer_type, dict) or isinstance(reader_type, dict):
         try:
-            return match_schemas(writer_type, reader_type, named_schemas)
+            return match_schemas(writer_type, reader_type, named_schemas, level)
         except SchemaResolutionError:
             return False
     if writer_type == reader_type:
         return True
+    elif level < 2:
+        pass
     # promotion cases
     elif writer_type == "int" and reader_type in ["long", "float", "double"]:
         return True
@@ -71,11 +75,21 @@ def match_types(writer_type, reader_type, named_schemas):
     writer_schema = named_schemas["writer"].get(writer_type)
     reader_schema = named_schemas["reader"].get(reader_type)
     if writer_schema is not None and reader_schema is not None:
-        return match_types(writer_schema, reader_schema, named_schemas)
+        return match_types(writer_schema, reader_schema, named_schemas, level)
     return False
 
 
-def match_schemas(w_schema, r_schema, named_schemas):
+def _reader_branch(w_schema, r_union, named_schemas):
+    """the first branch of the same type, otherwise the first one the writer's
+    type can be promoted to"""
+    for level in (0, 1, 2):
+        for schema in r_union:
+            if match_types(w_schema, schema, named_schemas, level):
+                return schema
+    return None
+
+
+def match_schemas(w_schema, r_schema, named_schemas, level=2):
     error_msg = f"Schema mismatch: {w_schema} is not {r_schema}"
     if isinstance(w_schema, list):
         # If the writer is a union, checks will happen in read_union after the
@@ -84,11 +98,10 @@ def match_schemas(w_schema, r_schema, named_schemas):
     elif isinstance(r_schema, list):
         # If the reader is a union, ensure one of the new schemas is the same
         # as the writer
-        for schema in r_schema:
-            if match_types(w_schema, schema, named_schemas):
-                return schema
-        else:
+        schema = _reader_branch(w_schema, r_schema, named_schemas)
+        if schema is None:
             raise SchemaResolutionError(error_msg)
+        return schema
     else:
         # Check for dicts as primitive types are just strings
         if isinstance(w_schema, dict):
@@ -117,15 +130,19 @@ def match_schemas(w_schema, r_schema, named_schemas):
             r_aliases = r_schema.get("aliases", [])
             same_kind = w_type == r_type or {w_type, r_type} == {"record", "error"}
             if same_kind and (
-                w_unqual_name == r_unqual_name
-                or w_schema["name"] in r_aliases
-                or w_unqual_name in r_aliases
+                w_schema["name"] == r_schema["name"]
+                or level > 0
+                and (
+                    w_unqual_name == r_unqual_name
+                    or w_schema["name"] in r_aliases
+                    or w_unqual_name in r_aliases
+                )
             ):
                 return r_schema
         elif w_type not in AVRO_TYPES and r_type in NAMED_TYPES:
-            if match_types(w_type, r_schema["name"], named_schemas):
+            if match_types(w_type, r_schema["name"], named_schemas, level):
                 return r_schema["name"]
-        elif match_types(w_type, r_type, named_schemas):
+        elif match_types(w_type, r_type, named_schemas, level):
             return r_schema
         raise SchemaResolutionError(error_msg)
 
@@ -426,19 +443,16 @@ def read_union(
             else:
                 raise SchemaResolutionError(msg)
         else:
-            for schema in reader_schema:
-                if match_types(idx_schema, schema, named_schemas):
-                    idx_reader_schema = schema
-                    result = read_data(
-                        decoder,
-                        idx_schema,
-                        named_schemas,
-                        schema,
-                        options,
-                    )
-                    break
-            else:
+            idx_reader_schema = _reader_branch(idx_schema, reader_schema, named_schemas)
+            if idx_reader_schema is None:
                 raise SchemaResolutionError(msg)
+            result = read_data(
+                decoder,
+                idx_schema,
+                named_schemas,
+                idx_reader_schema,
+                options,
+            )
     else:
         result = read_data(decoder, idx_schema, named_schemas, None, options)
 
